@@ -64,11 +64,15 @@ func On[T any](ctx context.Context, inOut T, handle Handle[T], timing CallbackTi
 		return ctx, inOut
 	}
 
+	// the unit's handlers followed by the global ones; mgr.handlers may be the caller's own slice (InitCallbacks,
+	// ReuseHandlers), possibly shared by units running at the same time: nothing is appended to it
 	hs := make([]Handler, 0, len(mgr.handlers)+len(mgr.globalHandlers))
-	for _, handler := range append(mgr.handlers, mgr.globalHandlers...) {
-		timingChecker, ok_ := handler.(TimingChecker)
-		if !ok_ || timingChecker.Needed(ctx, mgr.runInfo, timing) {
-			hs = append(hs, handler)
+	for _, handlers := range [2][]Handler{mgr.handlers, mgr.globalHandlers} {
+		for _, handler := range handlers {
+			timingChecker, ok_ := handler.(TimingChecker)
+			if !ok_ || timingChecker.Needed(ctx, mgr.runInfo, timing) {
+				hs = append(hs, handler)
+			}
 		}
 	}
 
